@@ -523,3 +523,66 @@ Proof.
   - intros e [<-|[]] Hne. exfalso. apply Hne. reflexivity.
   - intro Hx. discriminate Hx.
 Qed.
+
+(* ---- the negotiated line terminator, Windows-console framing (Model/WireWin.v) ---- *)
+From Trzsz Require Import Model.Buffer Model.Noise Model.WireWin Proofs.WireWin.
+
+(* every DATA message pipelineSendData writes — a frame sent as assembled by sendDataWriter or
+   a piece of a frame it had to cut again because the buffer size shrank — carries the
+   NEGOTIATED newline, whatever it is: base64 mode the message is "#DATA:" payload newline,
+   binary mode its header line is "#DATA:" length newline *)
+Theorem C01_frame_terminated : forall binary nl (p : bool * list byte),
+  exists body, ww_line_part binary (length (snd p)) (wire_render_piece binary nl p) = body ++ nl /\
+    body = Consts.deliver_data_prefix ++ (if binary then wire_dec (N.of_nat (length (snd p))) else snd p).
+Proof. exact piece_terminated. Qed.
+Print Assumptions C01_frame_terminated.
+
+Theorem C01_line_terminated : forall typ payload nl,
+  wire_line typ payload nl = ([35] ++ typ ++ [58] ++ payload) ++ nl /\
+  wire_pause_line typ nl = ([35] ++ typ ++ [58; 61]) ++ nl.
+Proof. exact line_terminated. Qed.
+Print Assumptions C01_line_terminated.
+
+(* the receiver's view under the Windows framing "!\n" (regenerated from sendAction; the same
+   '!' and LF the reader of C16 looks for: windows_newline_src_ok): the frames of one file,
+   assembled or re-split in any way, followed by the finish flag, arriving in ANY chunking
+   with the cursor anywhere, possibly behind the LF left over from the previous line, are
+   read back exactly by recvLine's Windows branch (readLineOnWindows, which ends a line at
+   '!' only); the rest of the stream stays unread (possibly behind that LF) *)
+Theorem C01_frames_parse_windows : forall (ps : list (bool * list byte)) lead more off pend fuel,
+  forallb (fun p => frame_ok false (snd p)) ps = true -> (length ps < fuel)%nat ->
+  (lead = [] \/ lead = [LF]) ->
+  concat pend = lead ++ ww_wire false Consts.windows_newline (ps ++ [(true, [])]) ++ more ->
+  exists o p' lead', ww_recv fuel off pend = Some (map snd ps, (o, p')) /\
+    (lead' = [] \/ lead' = [LF]) /\ concat p' = lead' ++ more.
+Proof. exact frames_parse_windows. Qed.
+Print Assumptions C01_frames_parse_windows.
+
+(* L1 over a Windows-framed connection, end to end at the codec level: both base64 stacks,
+   any file chunking, any frame sizes, any re-splitting by pipelineSendData, any chunking of
+   the connection, any read-buffer sizes: the receiver decodes the file content *)
+Theorem C01_L1_roundtrip_windows : forall zcomp zdecomp,
+  (forall cs, zdecomp (concat (zcomp cs)) = Some (concat cs)) ->
+  (forall cs, bytes_ok (concat (zcomp cs)) = true) ->
+  forall compress t chunks sizes dflt ssizes rsizes rdflt more off pend,
+  bytes_ok (concat chunks) = true ->
+  Forall (fun s => 1 <= s)%nat rsizes -> (1 <= rdflt)%nat ->
+  let ps := wire_resplit (wire_frames sizes dflt (wire_encode zcomp false compress t chunks)) ssizes dflt in
+  concat pend = ww_wire false Consts.windows_newline (ps ++ [(true, [])]) ++ more ->
+  exists fs o p', ww_recv (S (length ps)) off pend = Some (fs, (o, p')) /\
+    wire_decode zdecomp false compress t fs rsizes rdflt = Some (concat chunks) /\
+    (concat p' = more \/ concat p' = LF :: more).
+Proof. exact L1_roundtrip_windows. Qed.
+Print Assumptions C01_L1_roundtrip_windows.
+
+(* non-vacuity, and what goes wrong when a re-split piece is written with "\n" instead: the
+   frame "n9" as assembled, the frame "Cj" cut into "C" and "j", the finish flag, chunked *)
+Example C01_windows_example :
+  ww_recv 9 0%nat [[]; [35; 68; 65; 84; 65; 58; 110; 57; 33; 10; 35; 68; 65]; [84; 65; 58; 67; 33; 10; 35; 68; 65; 84; 65; 58; 106; 33];
+               [10; 35; 68; 65; 84; 65; 58; 33; 10; 35; 77]]
+    = Some ([[110; 57]; [67]; [106]], (9%nat, [[35; 77]])) /\
+  (* the same wire with the two pieces ended by a bare LF: the pieces are lost *)
+  ww_recv 9 0%nat [[]; [35; 68; 65; 84; 65; 58; 110; 57; 33; 10; 35; 68; 65]; [84; 65; 58; 67; 10; 35; 68; 65; 84; 65; 58; 106];
+               [10; 35; 68; 65; 84; 65; 58; 33; 10; 35; 77]]
+    = Some ([[110; 57]], (9%nat, [[35; 77]])).
+Proof. vm_compute. split; reflexivity. Qed.
